@@ -93,6 +93,16 @@ Apply(m, d(_)) ==
 ChunksInUse(p) == {ck[p][x].c : x \in DOMAIN ck[p]}
 FreeChunks(p) == (0 .. pn[p] - 1) \ ChunksInUse(p)
 
+\* Two places where the code is MORE permissive than its documentation (reported as candidate
+\* findings, see checks/C01.py / C08.py notes).  Strict = FALSE follows the code, so that the unchanged tree
+\* is accepted; overriding it with TRUE in a cfg (Strict <- TrueValue) makes the specification follow the
+\* documentation instead:
+\*  (1) a publisher that is dropped before a registered subscriber attached to their connection loses
+\*      the samples it sent to it (although send reported that subscriber as recipient);
+\*  (2) subscriber_max_borrowed_samples is enforced per connection, not per subscriber.
+Strict == FALSE
+TrueValue == TRUE
+
 NoOut == [a |-> "none"]
 EmptyMap == [x \in {} |-> 0]
 
@@ -187,7 +197,7 @@ DropPublisher(p) ==
     /\ conn' = TLCEval([x \in Pairs |->
                   IF x[1] # p THEN conn[x]
                   ELSE LET c == conn[x] IN
-                       IF c.pa /\ c.sa /\ sst[x[2]] = "live" /\ (c.sq # <<>> \/ c.bor # {})
+                       IF c.pa /\ (c.sa \/ Strict) /\ sst[x[2]] = "live" /\ (c.sq # <<>> \/ c.bor # {})
                        THEN [c EXCEPT !.pa = FALSE, !.cq = {}]
                        ELSE IF c.pa /\ c.sa /\ sst[x[2]] = "abandoned"
                        THEN [c EXCEPT !.pa = FALSE, !.cq = {}]
@@ -326,7 +336,9 @@ Send(p, id) ==
 
 \* connections of s that hold data / from which a receive is possible (after its connection update)
 WithData(s) == {p \in PubIds : C(p, s).sq # <<>>}
-Eligible(s) == {p \in WithData(s) : Card(C(p, s).bor) < cfg.borrow}
+BorrowedBy(s) == UNION {C(p, s).bor : p \in PubIds}
+Eligible(s) == {p \in WithData(s) : IF Strict THEN Card(BorrowedBy(s)) < cfg.borrow
+                                                ELSE Card(C(p, s).bor) < cfg.borrow}
 
 \* Subscriber::receive; p = the connection that is served (unspecified which one)
 Receive(s, p) ==
